@@ -51,7 +51,7 @@ PROPS = {
             'the generated code that picks the call shape (tonic-build output) is not under contract; server Grpc::apply_compression_config is (unit serverglue, G7, with the reference pattern of its for loop rewritten by R22)',
         ]),
     'C16': dict(
-        units=['webserver', 'webservice', 'webtrailers'], level='proof',
+        units=['webserver', 'webservice', 'webtrailers', 'b64cfg'], level='proof',
         not_covered=[
             'encode_trailers is under contract through the assumed HeaderMap::iter / Iterator::fold contracts (A-http-28, A-core-20) with three logged let-introductions (R20); a rewrite of it onto another iterator API (into_iter, for loops) leaves the shim and is reported undecided',
             'base64 itself (RFC 4648, decode of concatenated unpadded quanta) is assumed (A-b64-01); the whole-body statement follows from the per-call conservation clauses B1-B3 only under that assumption',
@@ -59,7 +59,7 @@ PROPS = {
             'GrpcWebLayer::layer / GrpcWebService::new are under contract (the layer installs the translation around the service); CORS is left to the cors layer the user composes with it (tonic-web itself has no CORS code at this commit)',
         ]),
     'C17': dict(
-        units=['webclient', 'webserver', 'webservice', 'webtrailers'], level='proof',
+        units=['webclient', 'webserver', 'webservice', 'webtrailers', 'b64cfg'], level='proof',
         witness=[dict(append_to='tonic-web/src/call.rs', module='replay/web_client_chunking.rs', crate='tonic-web', filter='verif_witness_web_client')],
         not_covered=[
             'decode_trailers_frame is under contract (unit webtrailers): its result is the row-by-row reading of the block (rows end at CRLF, split at the FIRST colon, one leading space dropped, appended in order), and lemma_trailers_block_roundtrip shows that the block the server side writes for entries with token names and values without a leading space reads back as exactly those entries; the iterator expressions in it are routed through assumed std contracts (A-core-26..29), HeaderName / HeaderValue::try_from through A-http-18/19',
